@@ -154,7 +154,7 @@ META = dict(
         "ties in min(dim) broken towards the lowest index in the model; the oracle does not depend on tie order",
         "division by the symbolic reference length linearised over -16..16 (checked as a model obligation)",
     ],
-    outside=["costs off the quarter grid (float32 rounding)", "lengths beyond the stated R,H", "TorchScript variants"],
+    outside=["costs off the quarter grid (float32 rounding)", "lengths beyond the stated R,H", "TorchScript variants", "a zero-width hypothesis tensor together with exclude_last (no prefix exists; the library raises IndexError there)"],
 )
 
 M = "checks.c01"
@@ -187,6 +187,8 @@ def tasks(tier):
                 for f in flags:
                     ts.append(task(PROP, M, "EditDistanceH", R=R, H=H, N=2, V=V, fn="edit", costs=[1.0, 2.0, 1.5], exclude_last=False, **f))
                     for xl in (False, True):
+                        if xl and H == 0:
+                            continue  # zero-width hypothesis with exclude_last: no prefix exists (excluded, as in C03's quantifier)
                         ts.append(task(PROP, M, "EditDistanceH", R=R, H=H, N=2, V=V, fn="prefix", costs=[0.5, 1.0, 1.25], exclude_last=xl, **f))
         for f in flags:
             if f["batch_first"]:
